@@ -19,7 +19,7 @@ func raw(s string) *E { return &E{K: 'x', S: s} }
 // Build-vs-go/types alone.
 func extraStreams(c *hx.Ctx) []streamCase {
 	var out []streamCase
-	n := c.N(250, 6000)
+	n := c.N(250, 20000)
 	for i := 0; i < n; i++ {
 		out = append(out, streamCase{complexProgram(c), "stream:complex-interface"})
 	}
